@@ -6,7 +6,7 @@ for _e, _n, _d, _s, _N in (('h_ot_2', 'ot_2', '1-of-2: chooser outputs M_sigma; 
                            ('h_ot_nopt_firstmove', 'ot_nopt_firstmove', 'optimised 1-of-N sender answers exactly the first moves made of group elements', 'x, y, z_0 in [-1, p+2), sender coins', 3)):
     PROTO('C18', _n, 'C18_eotp.cc', _e, _d, _s, tu=EOTP_TU, groups=[dict(GRP(7, 3, 2, 2), H_N=_N)], groupsT=[dict(GRP(11, 5, 3, 2), H_N=_N), dict(GRP(7, 3, 2, 2), H_N=_N)], timeout=3000)
     HARNESSES[-1]['defines'] = dict(HARNESSES[-1]['defines'], H_MAXDRAWS=24, **({'H_SHORT': 1} if _e == 'h_ot_2_firstmove' else {}))
-    if _n == 'ot_nopt_n3': HARNESSES[-1]['in_tiers'] = ('thorough',)
+    if _e in ('h_ot_2', 'h_ot_nopt'): HARNESSES[-1]['in_tiers'] = ('thorough',)     # honest runs: > 20 min per slice under load; the first-move harnesses stay in the quick tier
     if _e in ('h_ot_2', 'h_ot_nopt'):
         # the "ciphertexts not chosen do not open" clause costs 5-10x the honest run: thorough tier only
         HARNESSES[-1]['tiers']['thorough']['defines'] = dict(HARNESSES[-1]['defines'], H_OTHER=1); HARNESSES[-1]['tiers']['thorough']['memgb'] = 12
